@@ -67,7 +67,41 @@ def evaluate(sid, jobs, in_place, extra_props, tier):
     print(f"{sid}: {'CAUGHT' if rec['caught'] else 'missed'} exit={own['exit']} {[h for h, _ in own['failing_harnesses']]} {own['summary']} ({rec['wall_s']}s)", flush=True)
 
 
+def table():
+    rows = []
+    for sid in sorted(os.listdir(SEEDED)):
+        d = os.path.join(SEEDED, sid)
+        try:
+            meta = json.load(open(os.path.join(d, "meta.json")))
+        except Exception:
+            continue
+        res = None
+        if os.path.exists(os.path.join(d, "result.json")):
+            res = json.load(open(os.path.join(d, "result.json")))
+        thor = None
+        if os.path.exists(os.path.join(d, "result-thorough.json")):
+            thor = json.load(open(os.path.join(d, "result-thorough.json")))
+        summary = (meta.get("summary") or "").replace("|", "/").replace("\n", " ")
+        summary = summary[:150] + ("..." if len(summary) > 150 else "")
+        if res is None:
+            verdict, by = "not run", ""
+        elif res["caught"]:
+            own = res["results"][res["property"]]
+            verdict, by = "**caught** (quick)", ", ".join(sorted({h for h, _ in own["failing_harnesses"]}))
+        elif thor is not None and thor["caught"]:
+            own = thor["results"][thor["property"]]
+            verdict, by = "caught (thorough only)", ", ".join(sorted({h for h, _ in own["failing_harnesses"]}))
+        else:
+            verdict, by = "missed", meta.get("why_missed", "")
+        rows.append(f"| {sid} | {summary} | {verdict} | {by} |")
+    print("| seed | change | verdict | harnesses that fail / why it is missed |")
+    print("|---|---|---|---|")
+    print("\n".join(rows))
+
+
 def main():
+    if "--table" in sys.argv:
+        return table()
     ap = argparse.ArgumentParser()
     ap.add_argument("seeds", nargs="*")
     ap.add_argument("--parallel", type=int, default=3)
